@@ -16,7 +16,7 @@ func (r *rng) next() uint64 {
 	z = (z ^ (z >> 27)) * 0x94D049BB133111EB
 	return z ^ (z >> 31)
 }
-func (r *rng) n(k int) int     { return int(r.next() % uint64(k)) }
+func (r *rng) n(k int) int       { return int(r.next() % uint64(k)) }
 func (r *rng) chance(p int) bool { return r.n(100) < p }
 
 // ---- identifiers of the expressible grammar: [A-Za-z][A-Za-z0-9_-]*, not a keyword, not of
@@ -113,6 +113,8 @@ var trickyStrings = []string{
 	"", " ", "a b", "°C", "string 🚀", "�", "tab\there", "line\nbreak", "cr\rlf", "semi;colon", "// no comment",
 	"BO_ 1 x : 8 y", "'single'", "\\", "\\n", "%s %d", "0x1F", "-1e-9", "VERSION", ":", "m1M", "𝟘𝟙", "٣", "é́",
 	"long long long long long long long long long long long long long long long long long long string",
+	"a\r\nb", "\r\n", "line1\r\nline2\r\n", "\n\r", "trailing  ", "  leading", "tab\t", "\ttab", "back\\slash", "a\\", "100%", "%!", "%%",
+	"\u2028", "\ufeff", "\u0085", "e\u0301",
 }
 
 func (r *rng) str() string {
